@@ -27,7 +27,8 @@ def binProd (b c p : Var) (lb ub : Rat) : List Row :=
     rowGe [(1, p), (-1, c), (-ub, b)] (-ub)  -- p ≥ c − ub·(1 − b)
   ]
 
-/-- `ceil(log2(ub + 1))` for a natural `ub`: the least `n` with `ub + 1 ≤ 2^n` -/
+/-- `int(ceil(ub)).bit_length()` (since fix 028c63d; before: `ceil(log2(ub + 1))` in floating point, one short from
+`ub = 2^49` on) for a natural `ub`: the least `n` with `ub + 1 ≤ 2^n` -/
 def numBitsAux : Nat → Nat → Nat → Nat
   | 0, _, n => n
   | fuel+1, ub, n => if ub + 1 ≤ 2 ^ n then n else numBitsAux fuel ub (n+1)
